@@ -3,6 +3,11 @@
 is always valid and the not_applicable list is always the complement of the claimed checks)."""
 import json, subprocess
 CLAIMED = {
+ "C01": dict(
+   technique="property-based testing (proptest choice sequences -> programs built by construction) against a reference interpreter (CEK machine, svmodel) plus metamorphic rewrites; entry as REPL text and as a required module; JIT on/off; AST-level reduction of failures",
+   text="Generated-input search: ~15k generated programs per quick run (600k thorough), each executed by the real engine in forked workers in 4 ways (entered as top-level text and as the body of a required module, JIT on and off) and by an independent reference interpreter; stdout, canonical top-level values and the error/success outcome must agree, and one semantics-preserving rewrite of the program must agree too (model independent). Failures are shrunk on the choice sequence and then reduced on the AST inside the static domain rules. Bounded by the generator's grammar (DESIGN.md C01) and program size; no proof.",
+   note="Trusted: the reference interpreter svmodel::interp (R7RS + Steel's documented deviations, DESIGN.md 2.3), the canonical value walker. Evaluation order of operands is left open: programs keep at most one effectful operand per application/let group. Listed known findings are excluded by construction or matched by signature (known-findings.json); JIT-only divergences are attributed to C02.",
+   design="DESIGN.md section 4, C01"),
  "C10": dict(
    technique="property-based testing (proptest) against a reference model: BigRational + IEEE f64 oracle over generated (operator, operands, syntactic shape); JIT on/off",
    text="Generated-input search: ~400k (operator, operand tuple, code-path shape, configuration) evaluations per quick run on the real engine in forked workers, each compared with an independent exact-rational / IEEE-double model on the canonical value (read from the SteelVal, not the printer). Finds wrong values, wrap-around (overflow checks are on), non-canonical representations, panics. Not a proof: magnitudes beyond 2^192 and operators outside the listed set are not explored.",
